@@ -12,9 +12,14 @@ import (
 	"context"
 	"encoding/json"
 	"fmt"
+	"io"
+	"net/http"
+	"net/http/httptest"
 	"os"
 	"path/filepath"
 	"runtime"
+	"strconv"
+	"strings"
 	"sync"
 	"sync/atomic"
 
@@ -37,6 +42,42 @@ type wres struct {
 	MaxG     int64       `json:"max_g"`             // query.VerifMaxGoroutines after the case
 	Stmts    [][]stmtRes `json:"stmts"`
 	Canceled bool        `json:"canceled,omitempty"` // the canceller fired before the program ended
+}
+
+// the loopback HTTP server of this worker process: remote tables for the lazy check
+var (
+	lazyOnce sync.Once
+	lazyURL  string
+)
+
+func lazyServer() string {
+	lazyOnce.Do(func() {
+		srv := httptest.NewServer(http.HandlerFunc(func(w http.ResponseWriter, r *http.Request) {
+			parts := strings.Split(strings.Trim(r.URL.Path, "/"), "/")
+			n := 0
+			if len(parts) >= 2 {
+				n, _ = strconv.Atoi(parts[1])
+			}
+			if n < 0 || n > 1000 {
+				n = 0
+			}
+			switch parts[0] {
+			case "csv":
+				w.Header().Set("Content-Type", "text/csv")
+				_, _ = io.WriteString(w, lazyCSV(n))
+			case "json":
+				w.Header().Set("Content-Type", "application/json")
+				_, _ = io.WriteString(w, lazyJSON(n))
+			case "plain":
+				w.Header().Set("Content-Type", "text/plain")
+				_, _ = io.WriteString(w, lazyCSV(n))
+			default:
+				http.NotFound(w, r)
+			}
+		}))
+		lazyURL = srv.URL // http://127.0.0.1:<port>
+	})
+	return lazyURL
 }
 
 func workerMain() {
@@ -96,7 +137,11 @@ func execCase(c progCase, dir string) (res wres) {
 	parsed := make([][][]parser.Statement, len(c.Progs))
 	for i, p := range c.Progs {
 		for _, st := range p {
-			ps, _, err := parser.Parse(st.SQL, "", false, false)
+			sql := st.SQL
+			if strings.Contains(sql, "{{URL}}") {
+				sql = strings.ReplaceAll(sql, "{{URL}}", lazyServer())
+			}
+			ps, _, err := parser.Parse(sql, "", false, false)
 			if err != nil {
 				res.Harness = "statement does not parse: " + err.Error() + ": " + st.SQL
 				return
@@ -109,7 +154,11 @@ func execCase(c progCase, dir string) (res wres) {
 	defer cancel()
 	sessions := make([]*run.Sess, len(c.Progs))
 	for i := range c.Progs {
-		s, err := run.NewSess(run.Opt{Dir: dir, CPU: c.CPU, Ctx: ctx})
+		opt := run.Opt{Dir: dir, CPU: c.CPU, Ctx: ctx}
+		if c.Stdin > 0 {
+			opt.Stdin, opt.HasStdin = lazyCSV(c.Stdin), true
+		}
+		s, err := run.NewSess(opt)
 		if err != nil {
 			res.Harness = "session: " + err.Error()
 			return
